@@ -126,7 +126,11 @@ structure St where
   waitWt : Nat := 0
   waitFin : List Bool := []           -- results of Wait(): true = nil error
   -- ghost
-  panicked : Bool := false
+  panicRetire : Bool := false          -- `ac.retire` called twice
+  panicIncoming : Bool := false        -- processResult with incoming already zero
+  panicIdle : Bool := false            -- updateInFlight left a done connection non-idle
+  respLog : List (Nat × Nat) := []     -- every (id, payload) response the reader took off the wire (at RR)
+  brokenWrites : Nat := 0              -- transport writes that failed as broken
   transportCloses : Nat := 0
   closedWhileBusy : Bool := false     -- the transport was closed in a non-idle state
   onDone : Nat := 0
@@ -134,20 +138,26 @@ structure St where
   wire : List (Nat × Bool) := []      -- (request number, isError) of responses successfully written
 deriving Repr, Inhabited
 
+def St.panicked (s : St) : Bool := s.panicRetire || s.panicIncoming || s.panicIdle
+
 def St.idle (s : St) : Bool :=
   s.outCalls.isEmpty && s.outNotifs == 0 && s.incoming == 0 && !s.handlerRunning
 
 def St.shuttingDown (s : St) : Bool := s.closing || s.readErr || s.writeErr
 
+/-- `s.closer.Close()` once (conn.go:120-123). -/
+def closeTransport (s : St) : St :=
+  if s.closerUsed then s else { s with closerUsed := true, transportCloses := s.transportCloses + 1 }
+
+/-- If the reader has exited: `onDone`, close `done` (conn.go:124-135). -/
+def finish (s : St) : St :=
+  if s.reading then s else { s with onDone := s.onDone + 1, done := true }
+
 /-- The common tail of `updateInFlight` (conn.go:106-136). -/
 def tail (s : St) : St :=
   if s.done then
-    if s.idle then s else { s with panicked := true }
-  else if s.idle && s.shuttingDown then
-    let s := if s.closerUsed then s
-             else { s with closerUsed := true, transportCloses := s.transportCloses + 1 }
-    if s.reading then s
-    else { s with onDone := s.onDone + 1, done := true }
+    if s.idle then s else { s with panicIdle := true }
+  else if s.idle && s.shuttingDown then finish (closeTransport s)
   else s
 
 /-- `ac.retire`: panics when called twice. -/
@@ -166,7 +176,7 @@ def retireIn (s : St) (n : Nat) (res : Res) : St :=
   | some c =>
     let (c', p) := retireCall c res
     let s := modCall s n (fun _ => c')
-    if p then { s with panicked := true } else s
+    if p then { s with panicRetire := true } else s
 
 def cancelReq (s : St) (r : Nat) (cause : Cause) : St :=
   modReq s r (fun q => if q.cancelled.isSome then q else { q with cancelled := some cause })
@@ -224,40 +234,43 @@ def beginPR (s : St) (r : Nat) (own : Owner) : St :=
     if q.isCall then modReq s r (fun q => { q with owner := own, pc := .p1 })
     else toP2 (modReq s r (fun q => { q with owner := own })) r
 
-/-- Goroutines blocked on Go channels continue to their next park point. -/
-def settleCalls (s : St) : St :=
-  let rec go (i : Nat) (cs : List Call) (cn : List (Nat × Notif)) : List Call × List (Nat × Notif) :=
-    match cs with
-    | [] => ([], cn)
-    | c :: rest =>
-      let (c', cn') :=
-        if c.pc = .await then
-          match c.ready with
-          | some (.err e) =>
-            if e.closing && !c.ctxDone then ({ c with pc := .fin, result := some (.err e) }, cn)
-            else if c.ctxDone then ({ c with pc := .rc }, cn)
-            else ({ c with pc := .fin, result := some (.err e) }, cn)
-          | some r =>
-            if c.ctxDone then ({ c with pc := .rc }, cn) else ({ c with pc := .fin, result := some r }, cn)
-          | none => if c.ctxDone then ({ c with pc := .rc }, cn) else (c, cn)
-        else (c, cn)
-      let (rest', cn'') := go (i + 1) rest cn'
-      (c' :: rest', cn'')
-  let (cs, cn) := go 1 s.calls s.cnotifs
-  { s with calls := cs, cnotifs := cn }
+/-- A caller blocked in `Await` (mcp/transport.go:281-312) continues as soon as the call is ready or
+its context is done: a closing-class error with a live context returns "connection closed"; a done
+context leads to the eager `Retire` (park point R); otherwise the result is returned.
+(Ready with a closing-class error *and* a done context makes Go's `select` choose at random; the
+harness does not generate that schedule and the model takes the `rc` branch.) -/
+def settleCall (c : Call) : Call :=
+  if c.pc = .await then
+    match c.ready with
+    | some (.err e) =>
+      if e.closing && !c.ctxDone then { c with pc := .fin, result := some (.err e) }
+      else if c.ctxDone then { c with pc := .rc }
+      else { c with pc := .fin, result := some (.err e) }
+    | some r =>
+      if c.ctxDone then { c with pc := .rc } else { c with pc := .fin, result := some r }
+    | none => if c.ctxDone then { c with pc := .rc } else c
+  else c
 
-def settle (s : St) : St :=
-  let s := settleCalls s
-  let s := if s.done then
-      { s with closeWt := s.closeWt + s.closeWaiting, closeWaiting := 0,
-               waitWt := s.waitWt + s.waitWaiting, waitWaiting := 0 }
-    else s
+/-- Goroutines blocked on Go channels continue to their next park point. -/
+def settleCalls (s : St) : St := { s with calls := s.calls.map settleCall }
+
+/-- Close()/Wait() goroutines blocked on `<-c.done` reach their park point before WT once done is closed. -/
+def settleWaiters (s : St) : St :=
+  if s.done then
+    { s with closeWt := s.closeWt + s.closeWaiting, closeWaiting := 0,
+             waitWt := s.waitWt + s.waitWaiting, waitWaiting := 0 }
+  else s
+
+/-- The dispatcher blocked on `<-releaser.ch` goes on to D1 once the request was released. -/
+def settleDisp (s : St) : St :=
   match s.disp with
   | .waiting r =>
     match s.reqs[r]? with
     | some q => if q.released then { s with disp := .d1 } else s
     | none => s
   | _ => s
+
+def settle (s : St) : St := settleDisp (settleWaiters (settleCalls s))
 
 /-- The write gate W1 (conn.go:756-761) for message `w`; returns whether the write may proceed. -/
 def gateOpen (s : St) (isNotification : Bool) : Bool :=
@@ -297,7 +310,7 @@ def step0 (s : St) : Label → Option St
         -- the scripted writer returns ok only while ctx is alive and ctx-error only when it is done
         match o, c.ctxDone with
         | .ok, false => some (modCall s n fun c => { c with pc := .await })
-        | .broken, false => some (modCall s n fun c => { c with pc := .w2 .broken })
+        | .broken, false => some (modCall { s with brokenWrites := s.brokenWrites + 1 } n fun c => { c with pc := .w2 .broken })
         | .broken, true => some (modCall s n fun c => { c with pc := .r .broken })
         | .rejected, _ => some (modCall s n fun c => { c with pc := .r .rejected })
         | .ctx, true => some (modCall s n fun c => { c with pc := .r .ctx })
@@ -309,7 +322,7 @@ def step0 (s : St) : Label → Option St
         if q.pc ≠ .wr then none else
         match o with
         | .ok => some (toP2 (modReq { s with wire := s.wire ++ [(r, false)] } r fun q => { q with responses := q.responses + 1 }) r)
-        | .broken => some (modReq s r fun q => { q with pc := .w2 .broken })
+        | .broken => some (modReq { s with brokenWrites := s.brokenWrites + 1 } r fun q => { q with pc := .w2 .broken })
         | .rejected => some (toP2 s r)
         | .ctx => none     -- response writes use notDone{ctx}: never cancelled
     | w =>
@@ -319,7 +332,7 @@ def step0 (s : St) : Label → Option St
         if nf.pc ≠ .wr then none else
         match o with
         | .ok => some (setNotif s w fun nf => { nf with pc := .n2 none })
-        | .broken => some (setNotif s w fun nf => { nf with pc := .w2 .broken })
+        | .broken => some (setNotif { s with brokenWrites := s.brokenWrites + 1 } w fun nf => { nf with pc := .w2 .broken })
         | .rejected => some (setNotif s w fun nf => { nf with pc := .n2 (some .rejected) })
         | .ctx => none     -- notification contexts are never cancelled by the harness
   | .hasync r =>
@@ -408,7 +421,7 @@ def step0 (s : St) : Label → Option St
   | .rresp =>
     match s.reader with
     | .rr id p =>
-      let s := { s with reader := .read }
+      let s := { s with reader := .read, respLog := s.respLog ++ [(id, p)] }
       let s := if s.outCalls.contains id
         then retireIn { s with outCalls := s.outCalls.erase id } id (.resp p) else s
       some (tail s)
@@ -484,7 +497,7 @@ def step0 (s : St) : Label → Option St
     | none => none
     | some q =>
       if q.pc ≠ .p2 then none else
-      let s := if s.incoming = 0 then { s with panicked := true } else { s with incoming := s.incoming - 1 }
+      let s := if s.incoming = 0 then { s with panicIncoming := true } else { s with incoming := s.incoming - 1 }
       let s := tail (modReq s r fun q => { q with pc := .fin })
       some (afterP2 s r q.owner)
   | .w1 w =>
